@@ -69,8 +69,11 @@ def main():
             t0 = env.loop.time()
             assert t0 == 0.0
         # (i) determinism of replay
-        a = Exec(Canary, (0, 0, 1, 0, 0, 1)).run()
-        b = Exec(Canary, (0, 0, 1, 0, 0, 1)).run()
+        _, left = explore(Canary, 1, budget=7)
+        pre, labs = left[-1]
+        a = Exec(Canary, pre, labs).run()
+        b = Exec(Canary, pre, labs).run()
+        assert len(pre) > 1
         assert a.scen.trace == b.scen.trace and a.scen.log == b.scen.log and a.fps == b.fps, "replay not deterministic"
         st, left = explore(Canary, 1)
         st2, _ = explore(Canary, 1)
